@@ -13,7 +13,7 @@ EXTRA_FE = dict(EXTRA, **{"pkg/regserver/regprocessor/zz_verif_c12_core.go": "c1
 
 V4POOL = ["9.8.7.6", "192.0.2.55", "10.1.0.9", "10.2.3.4", "203.0.113.200", "255.255.255.7", "1.0.0.1"]
 V6POOL = ["fd00::1", "2001:db8::77", "2001:48a8:687f:1::5"]
-CIDRS = ["10.1.0.0/24", "10.2.0.0/16", "10.2.3.0/28", "172.16.5.4/32", "172.16.5.6/31", "100.64.0.0/10", "11.0.0.0/8",
+CIDRS = ["0.0.0.0/0", "10.1.0.0/24", "10.2.0.0/16", "10.2.3.0/28", "172.16.5.4/32", "172.16.5.6/31", "100.64.0.0/10", "11.0.0.0/8",
          "255.255.255.0/24", "198.51.100.128/25"]
 EXCL = ["192.0.2.0/24", "10.1.0.0/28", "9.8.0.0/16", "203.0.113.0/24", "2001:db8::/32"]
 ERR = {"": 0, "noc2s": 1, "procfailed": 2, "secret": 3, "other": 4}
@@ -52,7 +52,7 @@ def gen_subnets(rng, n, transports):
     out = []
     for _ in range(n):
         cidr = rng.choice(CIDRS) if rng.random() < 0.93 else "2001:db8:5::/48"
-        out.append({"cidr": cidr, "weight": rng.choice([1, 1, 2, 0.5, 3.25, 0, 10, 0.1]), "port": rng.choice([443, 80, 1111, 65535]),
+        out.append({"cidr": cidr, "weight": rng.choice([1, 1, 2, 0.5, 3.25, 0, 10, 0.1]), "port": rng.choice([443, 80, 1111, 65535] * 14 + [65536, 70000]),
                     "transport": rng.choice(transports), "prefix_id": rng.choice([0, 1, 2, 5, 9, 9, 42])})
     return out
 
@@ -100,6 +100,62 @@ def gen_case(rng, steer=True):
         if cfg["overrides"] == "rand" and transport == 4 and req["payload"] and not req["disable_ov"]:
             pre += b"\x00"
         c["pre"] = (pre + gate.to_bytes(2, "big")).hex()
+    return c
+
+
+def make_valid(rng, c):
+    """remove the usual reasons for a rejection (the subnet / override / family variety stays)"""
+    q = c["req"]
+    q["secret"] = bytes(rng.getrandbits(8) for _ in range(32)).hex()
+    q["payload"] = True
+    q["transport"] = rng.choice([1, 4])
+    q["params"] = {"kind": "prefix", "randomize": rng.choice([True, False]), "prefix_id": rng.choice([0, 1, 2, 5])} if q["transport"] == 4 \
+        else rng.choice([{"kind": "generic", "randomize": True}, {"kind": "generic", "randomize": False}, {"kind": "none"}])
+    q["libver"] = 4
+    c["cfg"]["transports"] = [1, 4]
+    c["cfg"]["send_ok"] = True
+    if c["cfg"]["overrides"] == "fixed:77":
+        c["cfg"]["overrides"] = "rand"
+    c["sel"]["err4"] = c["sel"]["err6"] = False
+    return c
+
+
+def port_cases(rng):
+    """override subnets whose configured port does not fit in 16 bits"""
+    out = []
+    for port in (65536, 70000, 65535 + 443 + 1):
+        for transport, tname in ((4, "Prefix_Transport"), (1, "Min_Transport")):
+            c = make_valid(rng, gen_case(rng, steer=False))
+            c["kind"], c["fe"] = "bd", ""
+            c["cfg"].update({"enforce": True, "exclusions": [], "pmin": 100, "pprefix": 100, "overrides": "none",
+                             "subnets": [{"cidr": "10.1.0.0/24", "weight": 1, "port": port, "transport": tname, "prefix_id": 1}]})
+            q = c["req"]
+            q.update({"transport": transport, "v4": True, "disable_ov": None, "gen": 1, "addr": None,
+                      "params": {"kind": "prefix", "prefix_id": 1} if transport == 4 else {"kind": "generic"}})
+            c["client_addr"], c["station"] = "c6336401", {"v4": True, "v6": True, "transports": [1, 4]}
+            out.append(c)
+    return out
+
+
+def fe_case(rng, fe):
+    c = gen_case(rng)
+    if rng.random() < 0.6:
+        make_valid(rng, c)
+    c["fe"] = fe
+    q = c["req"]
+    if fe == "api":
+        c["server_gen"] = rng.choice([None, 0, 2, 2, 5, 1000])
+        c["client_addr"] = rng.choice(["00000000000000000000ffffc6336401", "c6336401", "20010db8000000000000000000000001", "c6336401", None])
+        c["method"] = 4 if c["kind"] == "bd" else 2
+        if rng.random() < 0.08:
+            q["secret"] = ""          # short body (less than 33 bytes) when there is no payload either
+            q["payload"] = rng.random() < 0.5
+    else:
+        c["server_gen"] = rng.choice([0, 2, 2, 5, 1000])
+        c["client_addr"] = None
+        q["source"] = rng.choice([6, 6, 6, 6, 5, None, 4])
+        c["kind"] = "bd" if q["source"] == 6 else "uni"
+        c["method"] = 6 if c["kind"] == "bd" else 5
     return c
 
 
@@ -179,11 +235,12 @@ def gcase(c, r):
     cfg, q, o = c["cfg"], c["req"], r["or"]
     mins = [s for s in cfg["subnets"] if s["transport"] == "Min_Transport"]
     prefs = [s for s in cfg["subnets"] if s["transport"] == "Prefix_Transport"]
-    gcfg = "(mkCfg %s %s %s %s %s %s %s %s %s %s)" % (
+    others = [s_ for s_ in cfg["subnets"] if s_["transport"] not in ("Min_Transport", "Prefix_Transport")]
+    gcfg = "(mkCfg %s %s %s %s %s %s %s %s %s %s %s)" % (
         gbool(cfg["auth"]), gbool(cfg["overrides"] != "none"), glist(cfg["transports"], gN), gbool(cfg["enforce"]),
         gsubnets(mins), gsubnets(prefs),
         glist([{"cidr": e, "weight": 0, "port": 0} for e in cfg["exclusions"]], lambda s: gsubnet(s, 1)),
-        gN(o["rmin"]), gN(o["rprefix"]), gbool(cfg["send_ok"]))
+        gN(o["rmin"]), gN(o["rprefix"]), gbool(cfg["send_ok"]), gsubnets(others))
     fwdo = r["fwd"]
     req_params = o["req_params"] if fwdo and fwdo["has_payload"] else o["orig_params"]
     if q["payload"]:
@@ -231,17 +288,19 @@ def gcase(c, r):
     gst = "(mkSt %s %s (mk_new_reg %s %s %s %s))" % (
         gbool(st["v4"]), gbool(st["v6"]), gcanon(req_params), own_pair(r["station_own"]), gcanon(resp_params), own_pair(r["station_own2"]))
     # observation
-    if r["panic"]:
+    if r["ctor_err"]:
+        code = 6
+    elif r["panic"]:
         code = 5
     else:
         code = ERR.get(r["err"], 4)
     if fwdo is None:
         gfwd = "None"
     else:
-        gfwd = "(Some (mkFO %s %s %s %s %s %s %s %s %s %s %s %s %s))" % (
+        gfwd = "(Some (mkFO %s %s %s %s %s %s %s %s %s %s %s %s %s %s))" % (
             hexs(bytes.fromhex(fwdo["secret"])), gbool(fwdo["has_payload"]), gbool(fwdo["payload_eq"]), gview(fwdo["resp"]), gview(fwdo["signed"]),
             gbool(fwdo["has_bytes"]), gbool(fwdo["has_sig"]), gbool(fwdo["sig_ok"]), gbool(fwdo["bytes_ok"]), gopt(fwdo["source"], gN),
-            gb(fwdo["addr"]), gb(fwdo["decoy_addr"]), gbool(fwdo["unknown"]))
+            gb(fwdo["addr"]), gb(fwdo["decoy_addr"]), gbool(fwdo["unknown"]), gopt(r.get("fwd_gen"), gN))
     if r["station"] is None:
         gstat = "None"
     elif r["station"]["err"]:
@@ -249,8 +308,34 @@ def gcase(c, r):
     else:
         gstat = "(Some (Some %s))" % glist(r["station"]["regs"] or [], lambda g: "(%s, %s, %s)" % (
             hexs(bytes.fromhex(g["phantom"])), gN(g["port"]), gcanon(g["params"])))
-    gobs = "(mkObs %s %s %s %s %s)" % (gN(code), gview(r["resp"]), gbool(r["sent"] > 0), gfwd, gstat)
-    return "(mkCase %s %s %s %s %s %s %s %s)" % (gN({"bd": 0, "uni": 1, "st": 2}[c["kind"]]), gcfg, greq, gb(c["client_addr"]), gN(c["method"]), genv, gst, gobs)
+    fe = c.get("fe") or ""
+    status, cc = 0, None
+    caddr = c["client_addr"]
+    if fe == "api":
+        status, cc = r["status"], r["cc_gen"]
+        caddr = api_remote(caddr)
+    elif fe == "dns":
+        if r["status"] != 0 and code == 0:
+            code = 4                                  # processRequest itself failed: never expected
+        status, cc = (1 if r["success"] else 0), (None if r["outdated"] is None else (1 if r["outdated"] else 0))
+        caddr = None
+    gobs = "(mkObs %s %s %s %s %s %s %s %s)" % (gN(code), gview(r["resp"]), gbool(r["sent"] > 0), gfwd, gstat,
+                                                 gN(status), gopt(cc, gN), gbool(r["resp_extra"]))
+    return "(mkCase %s %s %s %s %s %s %s %s %s %s %s)" % (
+        gN({"bd": 0, "uni": 1, "st": 2}[c["kind"]]), gN({"": 0, "api": 1, "dns": 2}[fe]), gopt(c.get("server_gen"), gN), gN(r["body_len"]),
+        gcfg, greq, gb(caddr), gN(c["method"]), genv, gst, gobs)
+
+
+def api_remote(h):
+    """the API handler's view of the client address: RemoteAddr parsed and widened to 16 bytes; None = no address"""
+    if h is None:
+        return None
+    b = bytes.fromhex(h)
+    if len(b) == 4:
+        return (bytes(10) + b"\xff\xff" + b).hex()
+    if len(b) == 16:
+        return h
+    return None
 
 
 # ------------------------------------------------------------------ direct oracle
@@ -271,6 +356,8 @@ def short(c):
 
 def oracle(ctx, c, r):
     q, cfg, fw = c["req"], c["cfg"], r["fwd"]
+    if r["ctor_err"]:
+        return "ctor-rejected"
     if r["panic"]:
         # panics at these entry points belong to C11; here they only make the case useless
         return "panic"
@@ -282,11 +369,29 @@ def oracle(ctx, c, r):
                     ctx.fail("station-override-when-disabled", "the station replaced the client's transport parameters although the client "
                              "disabled registrar overrides: %s" % short(c), c)
         return "st/" + ("err" if st is None or st["err"] else "regs%d" % len(st["regs"] or []))
+    fe = c.get("fe") or ""
+    if fe:
+        ok = (r["status"] in (200, 204)) if fe == "api" else bool(r["success"])
+        if r["resp_extra"]:
+            ctx.fail("frontend-altered-response", "the %s front end returned a registration response with fields the processor did not set: %s"
+                     % (fe, short(c)), c)
+        if fe == "api" and c["kind"] == "bd" and ok:
+            gen = q["gen"] if q["payload"] else 0
+            want = c["server_gen"] if (c["server_gen"] is not None and gen < c["server_gen"]) else None
+            if r["cc_gen"] != want:
+                ctx.fail("frontend-clientconf", "API front end attached ClientConf generation %s, expected %s: %s" % (r["cc_gen"], want, short(c)), c)
+        if not ok:
+            if r["sent"]:
+                ctx.fail("sent-on-error", "the %s front end reported failure to the client but the registration was published: %s" % (fe, short(c)), c)
+            return "%s/%s/rejected" % (fe, c["kind"])
+        if c["kind"] == "bd" and r["resp"] is None:
+            ctx.fail("frontend-no-response", "the %s front end reported success without a registration response: %s" % (fe, short(c)), c)
+            return "%s/bd/ok" % fe
     if c["kind"] == "uni":
         if fw is not None and (fw["resp"] is not None or fw["has_bytes"] or fw["has_sig"]):
             ctx.fail("forged-copied/uni", "a unidirectional registration was forwarded with a registration response / signature "
                      "(client-supplied fields copied through): %s" % short(c), c)
-        return "uni/" + ("sent" if r["sent"] else "rejected")
+        return (fe + "/" if fe else "") + "uni/" + ("sent" if r["sent"] else "rejected")
     if r["err"]:
         if r["sent"]:
             ctx.fail("sent-on-error", "the registrar returned an error to the client but published the registration: %s" % short(c), c)
@@ -331,12 +436,17 @@ def oracle(ctx, c, r):
             bad = []
             if want is not None and ph != want:
                 bad.append("phantom %s != %s" % (ph.hex(), want.hex()))
-            if rv["port"] is not None and g["port"] != rv["port"] % 65536:
+            if rv["port"] is not None and g["port"] != rv["port"]:
                 bad.append("port %s != %s" % (g["port"], rv["port"]))
             if eff["ok"] and g["params"] != eff["params"]:
                 bad.append("params %s != %s" % (g["params"], eff["params"]))
             if bad:
-                ctx.fail("station-view-differs", "a station ingesting the forwarded message ends up with %s: %s" % ("; ".join(bad), short(c)), c)
+                key = "station-view-differs"
+                if len(bad) == 1 and bad[0].startswith("port") and rv["port"] >= 65536:
+                    key += "/port>=65536"
+                ctx.fail(key, "a station ingesting the forwarded message ends up with %s: %s" % ("; ".join(bad), short(c)), c)
+    if fe:
+        return "%s/bd/ok" % fe
     return "bd/ok/" + ("subst" if substituted else "plain") + ("/t%d" % q["transport"])
 
 
@@ -387,10 +497,21 @@ def run(ctx):
                 q["forged_resp"]["v6"] = rng.choice([None, "fd0000000000000000000000000000ee"])
         cases.append(c)
     cases += weight_cases(rng, 150 if quick else 1200)
-    rc, out, res = ctx.go_inpkg(".", PKG, FILES, "^TestVerifC12$", cases, extra_overlay=EXTRA, timeout=900)
-    if res is None or len(res) != len(cases):
-        ctx.broken("driver", "Go driver did not produce results: %s" % out[-1500:])
-        return
+    cases += port_cases(rng)
+    nfe = 150 if quick else 1500
+    cases += [fe_case(rng, "api") for _ in range(nfe)] + [fe_case(rng, "dns") for _ in range(nfe)]
+    res = [None] * len(cases)
+    for fe, pkg, files, test, extra in (
+            ("", PKG, FILES, "^TestVerifC12$", EXTRA),
+            ("api", "pkg/regserver/apiregserver", {"zz_verif_driver_test.go": "c12/c12_api_driver_test.go"}, "^TestVerifC12API$", EXTRA_FE),
+            ("dns", "pkg/regserver/dnsregserver", {"zz_verif_driver_test.go": "c12/c12_dns_driver_test.go"}, "^TestVerifC12DNS$", EXTRA_FE)):
+        idx = [i for i, c in enumerate(cases) if (c.get("fe") or "") == fe]
+        rc, out, part = ctx.go_inpkg(".", pkg, files, test, [cases[i] for i in idx], extra_overlay=extra, timeout=900)
+        if part is None or len(part) != len(idx):
+            ctx.broken("driver", "Go driver (%s) did not produce results: %s" % (fe or "processor", out[-1500:]))
+            return
+        for i, r in zip(idx, part):
+            res[i] = r
     terms = []
     hits = {}
     for c, r in zip(cases, res):
@@ -417,7 +538,8 @@ def run(ctx):
     ctx.sample({"case": cases[0], "observed": res[0]})
     ctx.sample({"case": cases[1], "observed": res[1]})
     ctx.require_kinds(["bd/ok/plain/t1", "bd/ok/plain/t4", "bd/ok/subst/t1", "bd/ok/subst/t4", "bd/err-other", "bd/err-noc2s", "bd/err-secret",
-                       "bd/err-procfailed", "uni/sent", "uni/rejected", "st/err", "st/regs1", "st/regs2"])
+                       "bd/err-procfailed", "uni/sent", "uni/rejected", "st/err", "st/regs1", "st/regs2",
+                       "ctor-rejected", "api/bd/ok", "api/bd/rejected", "api/uni/sent", "api/uni/rejected", "dns/bd/ok", "dns/bd/rejected", "dns/uni/sent", "dns/uni/rejected"])
     mm = ctx.coq_mismatches("reg", HEADER, terms, "chk", shard=150, need_vo=["C12/Run.vo", "C12/Examples.vo"])
     if mm:
         ctx.cov["mismatches"] += len(mm)
